@@ -73,9 +73,15 @@ fn main() {
                     None => "-".to_string(),
                 };
                 let mut h = DefaultHasher::new();
-                format!("{:?}", s.message).hash(&mut h);
+                let dbg = format!("{:?}", s.message);
+                dbg.hash(&mut h);
+                // variant name of the decoded message: Some(Variant(..
+                let variant = match dbg.strip_prefix("Some(") {
+                    Some(rest) => rest.split('(').next().unwrap_or("?").to_string(),
+                    None => "-".to_string(),
+                };
                 println!(
-                    "{} {} {} {} {} {} {} {} {:016x}",
+                    "{} {} {} {} {} {} {} {} {:016x} {}",
                     tag,
                     s.num_fragments,
                     s.fragment_number,
@@ -84,7 +90,8 @@ fn main() {
                     s.message_type,
                     if s.message.is_some() { 1 } else { 0 },
                     hex(&s.data),
-                    h.finish()
+                    h.finish(),
+                    variant
                 );
             }
         }
